@@ -39,6 +39,9 @@ type oplEnv struct {
 	ctx  context.Context
 	rest http.Handler
 	grpc *schema.Handler
+	// errors of the previous document and how they rendered then
+	prevErrs     []*schema.ParseError
+	prevRendered string
 }
 
 func newOplEnv(t testing.TB) *oplEnv {
@@ -273,6 +276,16 @@ func oplLexWatched(input string) string {
 	}
 }
 
+// oplRenderErrs renders parse errors through every accessor (positions and message text).
+func oplRenderErrs(errs []*schema.ParseError) string {
+	var sb strings.Builder
+	for _, err := range errs {
+		api := err.ToAPI()
+		fmt.Fprintf(&sb, "%s@%d:%d-%d:%d|%s;", api.Message, api.Start.Line, api.Start.Col, api.End.Line, api.End.Col, err.Error())
+	}
+	return sb.String()
+}
+
 // parseInner runs schema.Parse, the ParseError API and both endpoints on the input.
 func (e *oplEnv) parseInner(input string) (res oplParsed) {
 	t0 := time.Now()
@@ -285,6 +298,23 @@ func (e *oplEnv) parseInner(input string) (res oplParsed) {
 	}()
 	nss, errs := schema.Parse(input)
 	res.nss, res.nerr = nss, len(errs)
+	// the errors of the PREVIOUS document, rendered again now that another document has been parsed:
+	// a diagnosis must not depend on what the parser is used for afterwards
+	stale := 0
+	if len(e.prevErrs) > 0 {
+		if oplRenderErrs(e.prevErrs) != e.prevRendered {
+			stale = 1
+		}
+	}
+	e.prevErrs, e.prevRendered = nil, ""
+	if len(errs) > 0 && len(errs) <= 64 {
+		e.prevErrs, e.prevRendered = errs, oplRenderErrs(errs)
+	}
+	defer func() {
+		if res.cols != "" && !res.panic {
+			res.cols += fmt.Sprintf("\tstale=%d", stale)
+		}
+	}()
 	var shown, metas []string
 	type pe struct {
 		msg            string
